@@ -9,7 +9,8 @@ for things that run in a worker thread).  Nothing here predicts anything: the mo
 import asyncio
 import gc
 import threading
-from concurrent.futures import ThreadPoolExecutor
+from concurrent.futures import Executor, ThreadPoolExecutor
+from concurrent.futures import Future as CFuture
 
 import taskiq.message as tmsg
 import taskiq.receiver.receiver as rmod
@@ -311,6 +312,9 @@ def make_task(broker, i, M, loop):
 
     def sbody():
         log(i, "body.start")
+        e = CUR.get("entered")
+        if e is not None:
+            e.set()
         for s in M["segs"]:
             loop.thread_vsleep(s)
         return finish_body()
@@ -432,6 +436,44 @@ class PLoop(vloop.VLoop):
             await asyncio.sleep(0.001)
 
 
+class _ScriptedExecutor(Executor):
+    """thread-per-call executors that make the race "pool thread enters the function vs. wait_for(timeout <= 0)
+    cancels the future" deterministic: `eager` - submit() returns only once the function body has been entered
+    (the cancel finds it running); `lazy` - the thread is started two loop iterations later (the cancel, which
+    reaches the concurrent future one iteration after the submit, wins and the function never runs)."""
+
+    def __init__(self, mode):
+        self.mode = mode
+
+    def submit(self, fn, *args):
+        cf = CFuture()
+        entered = threading.Event()
+        CUR["entered"] = entered
+
+        def work():
+            if not cf.set_running_or_notify_cancel():
+                return
+            try:
+                r = fn(*args)
+            except BaseException as e:   # noqa
+                cf.set_exception(e)
+            else:
+                cf.set_result(r)
+            entered.set()
+
+        def start():
+            threading.Thread(target=work, daemon=True).start()
+        if self.mode == "eager":
+            start()
+            entered.wait(5)
+        else:
+            # wait_for's cancel reaches the concurrent future through a done-callback of the asyncio wrapper, i.e.
+            # one loop iteration after the submit: start the thread one iteration later than that
+            lp = asyncio.get_running_loop()
+            lp.call_soon(lambda: lp.call_soon(start))
+        return cf
+
+
 def run_on_loop(coro_fn):
     loop = PLoop(0)
     asyncio.set_event_loop(loop)
@@ -476,7 +518,9 @@ def run_recv(case):
             if M["kind"] != "bad":
                 make_task(broker, i, M, loop)
         at = case.get("ack_type")
-        recv = Receiver(broker, max_async_tasks=None, run_startup=False, propagate_exceptions=case["propagate"],
+        ex = _ScriptedExecutor(case["executor"]) if case.get("executor") else None
+        recv = Receiver(broker, executor=ex, max_async_tasks=None, run_startup=False,
+                        propagate_exceptions=case["propagate"],
                         ack_type=AcknowledgeType(at) if at else None)
 
         async def one(i, M):
